@@ -244,6 +244,25 @@ class Runner:
                         fps[name] = ws.fingerprint()
                 finally:
                     ws.close()
+            # third twin: the same structure built under the CURRENT registry durations only (every key holds its latest value
+            # from the start, the superseded assignments never happen).  Not after flatten(): positions in a flattened graph
+            # are chosen among the references that are latest at that moment, which is part of the structure.
+            if not any(s["op"] == "flatten" for s in mut) and any(s["op"] == "set_dur" for s in mut):
+                ws = Workspace()
+                try:
+                    with self.ctx.lib("replay under the current durations"):
+                        final = {}
+                        for s in mut:
+                            if s["op"] == "set_dur":
+                                final[s["key"]] = s["v"]
+                        for key, v in sorted(final.items()):
+                            ws.dreg.set_registry_at(key, v)
+                        for s in mut:
+                            if s["op"] != "set_dur":
+                                ws.mutate(s)
+                        fps["current-durations"] = ws.fingerprint()
+                finally:
+                    ws.close()
         finally:
             # restore the live override stack
             self.live.depth = 0
@@ -258,7 +277,7 @@ class Runner:
         if "live" not in fps:
             return
         facts = {"when": when, "steps": [s["op"] + (":" + s["what"] if s["op"] == "obs" else "") for s in self.steps]}
-        for name in ("never-observed", "listed-after-every-mutation"):
+        for name in ("never-observed", "listed-after-every-mutation", "current-durations"):
             if name not in fps:
                 continue
             d = diff_fp(fps["live"], fps[name])
